@@ -72,7 +72,7 @@ def run(tier, seed, replay=None):
     rng = random.Random(seed)
     tolf = state.knot_tolerance
     tol = C.fr(tolf)
-    nobj = 80 if tier == 'quick' else 1200
+    nobj = 200 if tier == 'quick' else 1200
     hist_len = 8 if tier == 'quick' else 12
     dist = {'op': {}, 'pardim': {}, 'errors': {}, 'ctor': {}}
     checks = []   # (case, snapshot) to run through the model predicate
@@ -80,7 +80,7 @@ def run(tier, seed, replay=None):
     nontriv = set()
     OPS = ['insert_knot', 'refine', 'raise_order', 'reverse', 'swap', 'reparam', 'split_piece', 'lower_periodic', 'make_periodic',
            'translate', 'scale', 'rotate', 'mirror', 'project', 'set_dimension', 'force_rational', 'section', 'clone', 'infix', 'lower_order',
-           'derivative_spline', 'make_identical']
+           'derivative_spline', 'make_identical', 'append']
     for it in range(nobj):
         spec = O.gen_obj(rng, kinds=['open', 'open', 'open', 'periodic'], nint_max=2)
         force_close = None
@@ -190,6 +190,15 @@ def run(tier, seed, replay=None):
                     if o.rational or b.order < 3:
                         continue
                     o = o.get_derivative_spline(d)
+                elif op == 'append':
+                    if pd != 1:
+                        continue
+                    # the argument may be any curve: open or closed (periodic), of another dimension or rationality; the
+                    # call either raises or leaves a well-formed receiver
+                    other = O.make_impl(O.gen_obj(rng, pardim=1, kinds=rng.choice([['open'], ['periodic']]), nint_max=3, big_periodic=True))
+                    args = ['periodic argument' if other.periodic(0) else 'open argument']
+                    siblings = (siblings + [other])[-4:]
+                    o.append(other)
                 elif op == 'make_identical':
                     other = O.make_impl(O.gen_obj(rng, pardim=pd, kinds=['open'], nint_max=2))
                     if max(max(o.order()), max(other.order())) > 4 or any(bb.continuity(kk) < 0 for bb in o.bases for kk in bb.knot_spans()[1:-1]):
